@@ -40,9 +40,12 @@ def formula_src(case, ci):
         return "%s(%s)" % (nm, "" if e["arg"] is None else e["arg"])
 
     nones = bool(case.get("nones"))
+    raises = case.get("raises")         # element id whose formula fails after calling its precedents ((P)-only cases)
 
     def expr(eid):
         e = case["elems"][eid]
+        if raises == eid:
+            return "boom(%s)" % " + ".join(["cnt(%d)" % eid, str(e["base"])] + [callee(p) for p in e["preds"]])
         if nones:
             # an element whose sum is 0 holds None (allowed: model.allow_none); callers read None as 0
             return "nz(%s)" % " + ".join(["cnt(%d)" % eid, str(e["base"])] + ["(%s or 0)" % callee(p) for p in e["preds"]])
@@ -75,6 +78,10 @@ def build(case, tag):
 
     m = mx.new_model("M" + tag)
     m.cnt = cnt
+    if case.get("raises") is not None:
+        def boom(v):
+            raise ValueError("boom %r" % (v,))
+        m.boom = boom
     if case.get("nones"):
         m.allow_none = True
         m.nz = lambda v: v if v else None
@@ -172,6 +179,27 @@ def run_case(case):
             return r
         r["exec_log"] = list(b.log)
         r["final"] = snapshot(b, case)
+        if case.get("second_round"):
+            # (P)-only (seeded/C16_r4): the SAME model is used again: the formula of every target cells is assigned
+            # again (which discards the pasted targets), then the same targets are planned and run a second time
+            r2 = {"err": None}
+            try:
+                for ci in sorted({case["elems"][t]["cell"] for t in case["targets"]}):
+                    b.cells[ci].set_formula(formula_src(case, ci))
+                b.log.clear()
+                r2["before"] = snapshot(b, case)
+                targets = [node_of(b, case, t) for t in case["targets"]]
+                actions = b.m.generate_actions(targets, case["step"])
+                r2["actions"] = enc_actions(b, actions)
+                r2["gen_log"] = list(b.log)
+                r2["after_gen"] = snapshot(b, case)
+                b.log.clear()
+                b.m.execute_actions(actions)
+                r2["exec_log"] = list(b.log)
+                r2["final"] = snapshot(b, case)
+            except Exception as e:
+                r2["err"] = "round2:" + errname(e) + ":" + str(e)[:120]
+            r["round2"] = r2
         # ---- run 2: identical fresh model, actions one at a time, state after each
         close_all()
         b2 = build(case, "b")
